@@ -146,7 +146,11 @@ def readLoop (n : Nat) (twod : Bool) (nnode chunk : Int) (width : Nat)
     if read < nnode then
       let sect := min chunk (wrap32 (nnode - read))
       -- scalar reader: one fread of ldim*section doubles, REIS on the count
+      -- `(*ldim) * section_size` is an `int` product
+      if checkedBlock ∧ ¬ int32 ((width : Int) * sect) then .error .undefined else
       if checkedBlock ∧ (width : Int) * sect < 0 then .error .failure else
+      -- rows of width 0 carry nothing and read nothing: only the counter advances
+      if width = 0 then readLoop n twod nnode chunk width rdRow checkedBlock fuel (read + sect) arr s else
       match rdRowsWith rdRow sect.toNat s with
       | .error e => .error e
       | .ok (rs, s) => readLoop n twod nnode chunk width rdRow checkedBlock fuel (read + sect) (place n twod nnode read rs arr) s
@@ -156,8 +160,9 @@ def readLoop (n : Nat) (twod : Bool) (nnode chunk : Int) (width : Nat)
     `ref_malloc_init(data, ldim * chunk, REF_DBL, -1.0)` — sized by the declared count alone -/
 def scalarAllocRequest (ldim : Nat) (nnode : Int) : Int := 8 * ((ldim : Int) * chunkOf nnode)
 
-/-- `ref_part_scalar_solb` on a grid with `n` nodes (`global i = local i`) -/
-def decodeSolbWith (cfg : Cfg) (n : Nat) (bs : Bytes) : Except Status (Nat × List (List UInt64)) :=
+/-- `ref_part_scalar_solb` up to the point where the data block is allocated:
+    dimension, `next_position`, declared vertex count, `ldim`, rest of the stream -/
+def scalarPlan (cfg : Cfg) (n : Nat) (bs : Bytes) : Except Status (Nat × Int × Int × Nat × Bytes) :=
   match solPrefix cfg bs with
   | .error e => .error e
   | .ok (_, dim, next, nnode, ntype, s) =>
@@ -166,9 +171,18 @@ def decodeSolbWith (cfg : Cfg) (n : Nat) (bs : Bytes) : Except Status (Nat × Li
   | .ok (ldim, s) =>
   -- too few vertices in the file is an error, too many only a warning
   if nnode ≠ n ∧ Int.tdiv nnode 2 ≠ n ∧ ¬ (nnode > n) then .error .failure else
+  if cfg.checkCount ∧ ¬ (0 ≤ nnode ∧ nnode < 2 ^ 31 ∧ nnode * ldim * 8 ≤ s.length) then .error .failure else
+  .ok (dim, next, nnode, ldim, s)
+
+/-- `ref_part_scalar_solb` on a grid with `n` nodes (`global i = local i`) -/
+def decodeSolbWith (cfg : Cfg) (n : Nat) (bs : Bytes) : Except Status (Nat × List (List UInt64)) :=
+  match scalarPlan cfg n bs with
+  | .error e => .error e
+  | .ok (dim, next, nnode, ldim, s) =>
   let chunk := chunkOf nnode
   let req := (ldim : Int) * chunk
-  if req < 0 then .error .failure           -- ref_malloc: RAS(n >= 0)
+  if ¬ int32 req then .error .undefined      -- `(*ldim) * chunk` overflows `int`
+  else if req < 0 then .error .failure       -- ref_malloc: RAS(n >= 0)
   else if (cfg.allocCap : Int) < 8 * req then .error .null
   else
   match readLoop n (dim == 2) nnode chunk ldim (rdF64s ldim) true (bs.length + 2) 0
@@ -176,7 +190,24 @@ def decodeSolbWith (cfg : Cfg) (n : Nat) (bs : Bytes) : Except Status (Nat × Li
   | .error e => .error e
   | .ok (arr, s) => if next = tell bs s then .ok (ldim, arr) else .error .failure
 
+/-- number of vertex-loop iterations the scalar reader performs without reading any data
+    (`ldim = 0`): the declared count alone drives the loop -/
+def scalarIdleIterations (cfg : Cfg) (n : Nat) (bs : Bytes) : Int :=
+  match scalarPlan cfg n bs with
+  | .error _ => 0
+  | .ok (_, _, nnode, ldim, _) => if ldim = 0 then nnode else 0
+
+/-- bytes requested (and initialised) for the data block before a single value is read; 0 if the
+    reader stops earlier -/
+def scalarAlloc (cfg : Cfg) (n : Nat) (bs : Bytes) : Int :=
+  match scalarPlan cfg n bs with
+  | .error _ => 0
+  | .ok (_, _, nnode, ldim, _) =>
+    let r := scalarAllocRequest ldim nnode
+    if r < 0 ∨ (cfg.allocCap : Int) < r ∨ ¬ int32 ((ldim : Int) * chunkOf nnode) then 0 else r
+
 def decodeSolb (n : Nat) (bs : Bytes) := decodeSolbWith Cfg.faithful n bs
+def decodeSolbFixed (n : Nat) (bs : Bytes) := decodeSolbWith Cfg.fixed n bs
 
 def identityMetric : List UInt64 :=
   [0x3ff0000000000000, 0, 0, 0x3ff0000000000000, 0, 0x3ff0000000000000]
@@ -192,8 +223,8 @@ def metricFromFile (twod : Bool) (f : List UInt64) : List UInt64 :=
       | some (_, true) => 0x3ff0000000000000
       | _ => 0
 
-/-- `ref_part_metric_solb` on a grid with `n` nodes -/
-def decodeMetricSolbWith (cfg : Cfg) (n : Nat) (bs : Bytes) : Except Status (List (List UInt64)) :=
+/-- `ref_part_metric_solb` up to the allocation of the metric block -/
+def metricPlan (cfg : Cfg) (n : Nat) (bs : Bytes) : Except Status (Nat × Int × Int × Nat × Bytes) :=
   match solPrefix cfg bs with
   | .error e => .error e
   | .ok (_, dim, next, nnode, ntype, s) =>
@@ -203,8 +234,16 @@ def decodeMetricSolbWith (cfg : Cfg) (n : Nat) (bs : Bytes) : Except Status (Lis
   | .ok (ldim, s) =>
   if (dim = 2 ∧ ldim ≠ 3) ∨ (dim ≠ 2 ∧ ldim ≠ 6) then .error .failure else
   if nnode ≠ n ∧ Int.tdiv nnode 2 ≠ n then .error .failure else
+  .ok (dim, next, nnode, ldim, s)
+
+/-- `ref_part_metric_solb` on a grid with `n` nodes -/
+def decodeMetricSolbWith (cfg : Cfg) (n : Nat) (bs : Bytes) : Except Status (List (List UInt64)) :=
+  match metricPlan cfg n bs with
+  | .error e => .error e
+  | .ok (dim, next, nnode, ldim, s) =>
   let chunk := chunkOf nnode
-  if 6 * chunk < 0 then .error .failure
+  if ¬ int32 (6 * chunk) then .error .undefined
+  else if 6 * chunk < 0 then .error .failure
   else if (cfg.allocCap : Int) < 48 * chunk then .error .null
   else
   let rdRow : P (List UInt64) := fun s =>
@@ -217,5 +256,6 @@ def decodeMetricSolbWith (cfg : Cfg) (n : Nat) (bs : Bytes) : Except Status (Lis
   | .ok (arr, s) => if next = tell bs s then .ok arr else .error .failure
 
 def decodeMetricSolb (n : Nat) (bs : Bytes) := decodeMetricSolbWith Cfg.faithful n bs
+def decodeMetricSolbFixed (n : Nat) (bs : Bytes) := decodeMetricSolbWith Cfg.fixed n bs
 
 end Refine.Model.Solb
